@@ -128,6 +128,7 @@ pub fn record(args: &Args) {
         let mut acc = UniqueSortedVec::from(v.clone());
         chain.push(json!({"op": "from", "acc": [], "arg": v, "res": acc.as_slice()}));
 
+        let outcome = guarded(std::panic::AssertUnwindSafe(|| {
         for _ in 0..rng.below(6) {
             let before = acc.as_slice().to_vec();
 
@@ -152,6 +153,12 @@ pub fn record(args: &Args) {
                     chain.push(json!({"op": "first_following", "acc": before, "arg": e, "res": r}));
                 }
             }
+        }
+
+        }));
+
+        if let Err(p) = outcome {
+            chain.push(json!({"op": "panic", "acc": [], "arg": [], "res": p}));
         }
 
         if corrupt > 0 && line + 1 == corrupt {
